@@ -4,7 +4,7 @@
    into Gen/ImportRules.v on every run. `expected_rules` is what the model of Collect.v was
    transliterated from and what the theorems of CollectProps.v are proved for; `Current.v` holds
    the obligation `Gen.ImportRules.rules = expected_rules`. *)
-From Coq Require Import List Bool.
+From Coq Require Import List Bool NArith.
 Import ListNotations.
 
 (* collectSpecs: `currentImportDepth >= maxImportDepth` *)
@@ -27,7 +27,11 @@ Record rules := {
   flatten_dedup_by_index : bool;     (* flattenSpecs returns at once when an element of specs has the same index *)
   flatten_preorder : bool;           (* the file is appended before its imports are visited *)
   flatten_order : flatten_dir;
-  index_ops : list index_op
+  index_ops : list index_op;
+  extract_separators : list N;       (* ... and which characters (codes) may follow the keyword `import` for a line to
+                                        count as an import statement: the lexer's WS is [ \t]+ *)
+  extract_every_import_line : bool   (* extractImports: the scan loop over the lines has the single statement
+                                        `if <line starts with the keyword and a separator> { write line; write '\n' }` - no break, return or else *)
 }.
 
 Definition expected_rules : rules := {|
@@ -43,5 +47,7 @@ Definition expected_rules : rules := {|
   flatten_dedup_by_index := true;
   flatten_preorder := true;
   flatten_order := Forward;
-  index_ops := [ReplaceBackslash; CutAtVersion]
+  index_ops := [ReplaceBackslash; CutAtVersion];
+  extract_every_import_line := true;
+  extract_separators := [9; 32]%N
 |}.
